@@ -145,3 +145,20 @@ Section AnyEncoder.
     rewrite read_range_at by exact Hrange. reflexivity.
   Qed.
 End AnyEncoder.
+
+(* ================= C19: the PMTiles lookup path never panics ================= *)
+From VT Require Import Proofs.NoPanicProofs.
+Theorem pm_file_lookup_soft (unzip : bytes -> option bytes) file t : soft (pm_file_lookup unzip 1 file t).
+Proof.
+  unfold pm_file_lookup.
+  pose proof (pmh_deserialize_soft (firstn 127 file)) as Sh. destruct (pmh_deserialize (firstn 127 file)) as [h| | |]; cbn [obind]; try exact Sh.
+  destruct (read_range file (p_meta_off h) (p_meta_len h)); [|exact I]. destruct (unzip l); [|exact I].
+  destruct (read_range file (p_root_off h) (p_root_len h)) as [rz|]; [|exact I]. destruct (unzip rz) as [rootraw|]; [|exact I].
+  destruct (read_range file (p_leaf_off h) (p_leaf_len h)) as [leaves|]; [|exact I].
+  pose proof (deserialize_soft rootraw) as Sd. destruct (deserialize 1 rootraw) as [root| | |]; cbn [obind]; try exact Sd.
+  assert (Sleaf : forall o n, soft (file_leaf unzip 1 leaves o n)).
+  { intros o n. unfold file_leaf. destruct (read_range leaves o n) as [z|]; [|exact I]. destruct (unzip z) as [raw|]; [|exact I]. apply deserialize_soft. }
+  pose proof (pm_lookup_soft 3 (file_leaf unzip 1 leaves) Sleaf root t) as Sl.
+  destruct (pm_lookup 1 3 (file_leaf unzip 1 leaves) root t) as [[e|]| | |]; cbn [obind]; try exact Sl; try exact I.
+  destruct (u64_max <? e_off e + p_data_off h); [exact I|]. destruct (read_range file (e_off e + p_data_off h) (e_len e)); exact I.
+Qed.
